@@ -326,7 +326,7 @@ def st_grammar(draw, max_nt=5, max_alts=4, max_len=4, back_edges="guarded", n_te
         big = n_alts >= 6
         for k in range(n_alts):
             shape = draw(st.sampled_from(["fresh", "fresh", "copy_extend", "copy_extend", "prefix_of_prev",
-                                          "same_first", "empty"]))
+                                          "same_first", "empty", "copy_any"]))
             if big and k > 0:
                 shape = draw(st.sampled_from(["same_first", "same_first", "copy_extend", "prefix_of_prev"]))
                 if shape == "same_first" and alts and alts[-1]:
@@ -336,7 +336,14 @@ def st_grammar(draw, max_nt=5, max_alts=4, max_len=4, back_edges="guarded", n_te
             elif shape == "empty":
                 alt = []
             else:
-                prev = alts[draw(st.integers(0, len(alts) - 1))] if shape == "same_first" else alts[-1]
+                prev = alts[draw(st.integers(0, len(alts) - 1))] if shape in ("same_first", "copy_any") else alts[-1]
+                if shape == "copy_any":
+                    # common prefix with an alternative that is NOT the adjacent one (adjacent ones get factorised;
+                    # these meet only in the parse table)
+                    if len(alts) >= 2:
+                        cands = [x for x in alts[:-1] if x and x[0] in nts] or alts[:-1]
+                        prev = cands[draw(st.integers(0, len(cands) - 1))]
+                    shape = "copy_extend"
                 if shape == "same_first_last":
                     shape = "same_first"
                 if not prev:
@@ -363,6 +370,11 @@ def st_grammar(draw, max_nt=5, max_alts=4, max_len=4, back_edges="guarded", n_te
             if alt not in alts:
                 alts.append(alt)
         prods[a] = alts
+    # make some non-terminals nullable after the fact (first symbols of earlier alternatives may refer to them)
+    lead = {alt[0] for alts in prods.values() for alt in alts if alt and alt[0] in prods}
+    for a in nts[1:]:
+        if [] not in prods[a] and draw(st.integers(0, 1 if a in lead else 4)) == 0:
+            prods[a].insert(draw(st.integers(0, len(prods[a]))), [])
     return {"prods": prods, "start": "N0", "terms": list(terms)}
 
 
@@ -467,7 +479,7 @@ def need_space(a, b):
 
 
 def st_sep(first=False, last=False, multiline=True, comments=True):
-    blanks = st.sampled_from(["", " ", "  ", "\t", " \t "])
+    blanks = st.sampled_from(["", " ", "  ", "\t", " \t ", " ", "  ", "\x0c", "\x0b ", " \r", "\x1c", "\x85", "\u2028", "\u00a0"])
     pieces = [blanks, blanks, st.just(" ")]
     if multiline:
         pieces += [st.sampled_from(["\n", "\n\n", " \n", "\n  ", "  \n\n   ", "\n\t"])]
